@@ -195,6 +195,28 @@ pub fn response(tid: &[u8], id: &[u8; 20], mut r: B, to: Option<&SocketAddrV4>) 
     d
 }
 
+/// Error descriptions are free text: every implementation words the same code in its own way (this crate, libtorrent, an
+/// empty string...). Peer `idx` of a scenario speaks dialect `idx % 5`.
+pub fn error_text(code: i64, idx: usize) -> String {
+    match idx % 5 {
+        0 => match code {
+            301 => "CAS mismatched, re-read value and try again.".to_string(),
+            302 => "Sequence number less than current.".to_string(),
+            203 => "Bad token".to_string(),
+            _ => "Generic Error".to_string(),
+        },
+        1 => match code {
+            301 => "CAS mismatch".to_string(),
+            302 => "old sequence number".to_string(),
+            203 => "invalid token".to_string(),
+            _ => "error".to_string(),
+        },
+        2 => String::new(),
+        3 => format!("E{code}"),
+        _ => "rejected".to_string(),
+    }
+}
+
 pub fn error(tid: &[u8], code: i64, text: &str) -> B {
     let mut d = envelope("e", tid, false);
     d.set("e", B::List(vec![B::Int(code as i128), B::str(text)]));
